@@ -202,6 +202,13 @@ def enabled(project, level='full', kinds=None, fresh_names=FRESH_FIELD_NAMES,
                                     'RenameField', mname, fname, new,
                                     {'db_column': S.column_name(f)}]))
                         break
+                    if level == 'full' and f['type'] not in ('M2M',) and \
+                            not f['attrs'].get('db_column'):
+                        # the field keeps its name and moves to another
+                        # column
+                        out.append((label, [
+                            'RenameField', mname, fname, fname,
+                            {'db_column': 'col_' + fname}]))
                 if want('ChangeField') and f['type'] != 'M2M':
                     out += [(label, c) for c in change_menu(mname, f, level)]
             if want('ChangeMeta'):
